@@ -36,15 +36,15 @@ func kdfBy4(baseMD *digest, keyLen int, limit int) []byte {
 	}
 
 	var t uint64
-	blocks := 1
 	len := baseMD.len + 4
 	remainlen := len % 64
 	if remainlen < 56 {
 		t = 56 - remainlen
 	} else {
 		t = 64 + 56 - remainlen
-		blocks = 2
 	}
+	// blocks hashed per lane: buffered bytes + counter + padding + length
+	blocks := (baseMD.nx + 4 + int(t) + 8) / BlockSize
 	len <<= 3
 	// prepare temporary buffer
 	tmpStart := parallelSize4 * blocks * BlockSize
